@@ -63,6 +63,10 @@ type absCert struct {
 	NotAfter *big.Int // ns
 	EKUs     []int
 	Exts     []absExt
+	// for the direct oracle only (strict.go), never written into the Coq case: what the Go standard
+	// library and a hand-written framing check say about the DER of this certificate
+	OneCert bool   // the DER is exactly one certificate
+	Poison  string // poison extension class read from the standard library's parse
 }
 
 // interning tables shared by all hierarchies of a run (deterministic: first-come numbering)
@@ -141,8 +145,10 @@ func (u *universe) abstract() {
 			a.EKUs = append(a.EKUs, int(k))
 		}
 		for _, x := range c.Extensions {
-			a.Exts = append(a.Exts, absExt{oidID(x.Id), x.Critical, bytes.Equal(x.Value, asn1.NullBytes)})
+			a.Exts = append(a.Exts, absExt{oidID(x.Id), x.Critical, bytes.Equal(x.Value, derNull)})
 		}
+		a.OneCert = oneCertificate(e.DER)
+		a.Poison = stdPoisonClass(e.DER, a)
 		for j, p := range u.ents {
 			if safeCheckSig(c, p.Cert) {
 				a.Sigs = append(a.Sigs, j)
@@ -272,7 +278,8 @@ type hier struct {
 	leaves  []int
 	paths   map[int][][]int // for each leaf: its honest chains, leaf first, root last
 	cas     []int           // all CA certificates (roots, intermediates, cross-signs, decoys)
-	junk    [][]byte        // DER that does not parse
+	junk    [][]byte        // byte strings that are not one certificate
+	junkN   []string        // what each of them is (for the Note key)
 	target  []targeted      // hand-picked (trust configuration, chain) pairs
 }
 
@@ -455,6 +462,7 @@ func genHier(r *mrand.Rand, h int) *hier {
 	H.trustCf = [][]int{{r0}, {r0, r1}, {r1, r0}, H.roots, {r1}, {r0, iIA}, {iIA, r1}, {r0, r1, iIAX, iIB}, {r0, iRV, iV1R}, {iV1I, r0, r1}}
 	good := roots[0].DER
 	H.junk = [][]byte{{}, {0x30, 0x03, 0x02, 0x01, 0x01}, good[:len(good)/2], append(append([]byte{}, good...), 0x00), []byte("not a certificate")}
+	H.junkN = []string{"empty", "short-sequence", "root-truncated", "root+1-trailing", "text"}
 	u.abstract()
 	return H
 }
@@ -487,6 +495,7 @@ type opts struct {
 	OnlyCA     bool
 	EKUs       []int
 	RejExt     []asn1.ObjectIdentifier
+	Cfg        *cfgW // the class of config.go: the LogConfig fields as written (envFor writes them verbatim)
 }
 
 func optZ(t *time.Time) string {
@@ -524,8 +533,12 @@ func (o opts) json() map[string]interface{} {
 	for _, x := range o.RejExt {
 		rej = append(rej, x.String())
 	}
-	return map[string]interface{}{"roots": o.Roots, "now": jt(&o.Now), "reject_expired": o.RejExpired, "reject_unexpired": o.RejUnexp,
+	m := map[string]interface{}{"roots": o.Roots, "now": jt(&o.Now), "reject_expired": o.RejExpired, "reject_unexpired": o.RejUnexp,
 		"not_after_start": jt(o.Start), "not_after_limit": jt(o.Limit), "accept_only_ca": o.OnlyCA, "ekus": o.EKUs, "reject_ext": rej}
+	if o.Cfg != nil {
+		m["config_written"] = o.Cfg.key()
+	}
+	return m
 }
 
 var offs = []time.Duration{-time.Hour, -time.Second, -time.Nanosecond, 0, time.Nanosecond, time.Second, time.Hour}
@@ -705,6 +718,7 @@ func coqChain(c []int) string {
 type obs struct {
 	class string // "accepted" "norfc" "rejected" "panic"
 	path  []int
+	raw   [][]byte // the bytes of the certificates of the returned path
 	err   string
 }
 
@@ -749,6 +763,7 @@ func runValidate(H *hier, c []int, o opts) (res obs) {
 			i = 1 << 20 // a certificate from nowhere: cannot equal any model id
 		}
 		res.path = append(res.path, i)
+		res.raw = append(res.raw, append([]byte{}, p.Raw...))
 	}
 	return res
 }
@@ -765,6 +780,18 @@ func envFor(H *hier, o opts) *ctfeenv.Env {
 		roots = append(roots, H.u.ents[i])
 	}
 	e, err := ctfeenv.New(ctfeenv.Options{Roots: roots, Dir: *lib.OutDir, NoClock: true, Configure: func(c *configpb.LogConfig) {
+		if w := o.Cfg; w != nil {
+			c.RejectExpired, c.RejectUnexpired, c.AcceptOnlyCa = w.RejectExpired, w.RejectUnexpired, w.AcceptOnlyCA
+			if w.NotAfterStart != nil {
+				c.NotAfterStart = timestamppb.New(*w.NotAfterStart)
+			}
+			if w.NotAfterLimit != nil {
+				c.NotAfterLimit = timestamppb.New(*w.NotAfterLimit)
+			}
+			c.ExtKeyUsages = append([]string{}, w.ExtKeyUsages...)
+			c.RejectExtensions = append([]string{}, w.RejectExtensions...)
+			return
+		}
 		c.RejectExpired, c.RejectUnexpired, c.AcceptOnlyCa = o.RejExpired, o.RejUnexp, o.OnlyCA
 		if o.Start != nil {
 			c.NotAfterStart = timestamppb.New(*o.Start)
@@ -789,7 +816,8 @@ func envFor(H *hier, o opts) *ctfeenv.Env {
 	return e
 }
 
-func runHTTP(H *hier, c []int, o opts, pre bool) (status int) {
+// runHTTP: the status, and what reached the backend (for the byte-identity clause, strict.go).
+func runHTTP(H *hier, c []int, o opts, pre bool) (status int, calls []ctfeenv.Call) {
 	defer func() {
 		if recover() != nil {
 			status = 0
@@ -798,7 +826,8 @@ func runHTTP(H *hier, c []int, o opts, pre bool) (status int) {
 	e := envFor(H, o)
 	e.Backend.Reset()
 	e.ReqLog.Reset()
-	return e.AddChain(pre, H.ders(c)).Code
+	status = e.AddChain(pre, H.ders(c)).Code
+	return status, e.Backend.Reset()
 }
 
 // ------------------------------------------------------------------ main
@@ -827,17 +856,37 @@ func main() {
 		hs = append(hs, genHier(r, h))
 	}
 	line := genLine(103, "ULine")
+	// the class of config.go draws from a second stream of the same seed, so that the cases above
+	// are the same whether or not the class is there
+	rc := mrand.New(mrand.NewSource(lib.Seed() ^ 0x6366672d433032))
+	var chs []*cfgHier
+	for k := 0; k < lib.Count(3, 8); k++ {
+		chs = append(chs, genCfgHier(rc, k))
+	}
+	// likewise the classes of poison.go and trailing.go: streams of their own
+	rp := mrand.New(mrand.NewSource(lib.Seed() ^ 0x706f69736f6e))
+	rt := mrand.New(mrand.NewSource(lib.Seed() ^ 0x747261696c))
+	var phs []*poisonHier
+	for k := 0; k < lib.Count(1, 3); k++ {
+		phs = append(phs, genPoisonHier(rp, k))
+	}
 	header := coqImports
+	for _, P := range phs {
+		header += P.H.u.coqDef()
+	}
 	for _, H := range append(hs, line) {
 		header += H.u.coqDef()
+	}
+	for _, C := range chs {
+		header += C.H.u.coqDef()
 	}
 	w := lib.NewWriter(header, 300)
 	defer w.Guard()
 
 	emitValidate := func(H *hier, s sub, o opts, extraTags ...string) {
 		res := runValidate(H, s.chain, o)
-		ok, why := admissible(H.u.abs, o, s.chain)
-		propOK, note := judgeValidate(H.u.abs, o, s.chain, res, ok, why)
+		ok, why := admissible(H.u.abs, o, s.chain, H.entries(s.chain))
+		propOK, note := judgeValidate(H.u.abs, o, s.chain, H.ders(s.chain), res, ok, why)
 		tags := append([]string{"validate:" + res.class, "shape:" + s.kind, fmt.Sprintf("admissible=%v", ok)}, extraTags...)
 		if !ok {
 			tags = append(tags, "not-admissible:"+strings.SplitN(why, " ", 2)[0])
@@ -850,10 +899,10 @@ func main() {
 		})
 	}
 	emitHTTP := func(H *hier, s sub, o opts, pre bool) {
-		st := runHTTP(H, s.chain, o, pre)
-		ok, why := admissible(H.u.abs, o, s.chain)
+		st, calls := runHTTP(H, s.chain, o, pre)
+		ok, why := admissible(H.u.abs, o, s.chain, H.entries(s.chain))
 		want200, wwhy := expect200(H.u.abs, s.chain, pre, ok, why)
-		propOK, note := judgeHTTP(H.u.abs, o, s.chain, pre, st, want200, ok, wwhy)
+		propOK, note := judgeHTTP(H.u.abs, o, s.chain, pre, st, want200, ok, wwhy, handedOn(st, calls, H.ders(s.chain)))
 		ep := "add-chain"
 		if pre {
 			ep = "add-pre-chain"
@@ -866,22 +915,56 @@ func main() {
 		})
 	}
 
+	emitPrecert := func(H *hier, i int, extraTags ...string) {
+		e := H.u.ents[i]
+		got, gotErr := safeIsPrecert(e.Cert)
+		cls := poisonClass(H.u.abs[i])
+		o := "None"
+		if gotErr == "" {
+			o = lib.Some(lib.Bool(got))
+		}
+		propOK := (cls == "critical-null") == (got && gotErr == "") && (cls == "absent") == (!got && gotErr == "") && gotErr != "panic"
+		w.Add(lib.Case{
+			Coq:    fmt.Sprintf("CPrecert %s %s %s", H.u.name, lib.Nat(i), o),
+			Input:  map[string]interface{}{"kind": "precert", "universe": H.u.name, "cert": i, "role": H.u.role[i], "poison_value": stdPoisonHex(e.DER)},
+			Impl:   map[string]interface{}{"is_precert": got, "error": gotErr, "poison": cls},
+			PropOK: propOK, Note: "is-precertificate: poison=" + cls + " role=" + H.u.role[i], Tags: append([]string{"precert:" + cls}, extraTags...),
+		})
+	}
+
+	emitCfg := func(C *cfgHier, k cfgCase) {
+		H := C.H
+		o := optsFor(C, k.cfg, k.rej)
+		st, calls := runHTTP(H, k.chain, o, k.pre)
+		d := C.std[k.leaf]
+		fok, fwhy := k.cfg.pass(d, time.Now())
+		ok, why := admissibleF(H.u.abs, o, k.chain, H.entries(k.chain), func(absCert) (bool, string) { return fok, fwhy })
+		want200, wwhy := expect200(H.u.abs, k.chain, k.pre, ok, why)
+		propOK, note := judgeHTTP(H.u.abs, o, k.chain, k.pre, st, want200, ok, wwhy, handedOn(st, calls, H.ders(k.chain)))
+		ep := "add-chain"
+		if k.pre {
+			ep = "add-pre-chain"
+		}
+		verdict := "pass"
+		if !fok {
+			verdict = strings.SplitN(fwhy, " ", 2)[0]
+		}
+		tags := append([]string{fmt.Sprintf("http:%s:%d", ep, st), "shape:" + k.shape, "cfg:filters=" + verdict,
+			fmt.Sprintf("cfg:filters-on=%d", k.cfg.filtersOn()), fmt.Sprintf("cfg:rej-len=%d", len(k.cfg.RejectExtensions)),
+			fmt.Sprintf("cfg:eku-len=%d", len(k.cfg.ExtKeyUsages))}, k.tags...)
+		w.Add(lib.Case{
+			Coq: fmt.Sprintf("CHttp %s %s %s %s %s", H.u.name, o.coq(), coqChain(k.chain), lib.Bool(k.pre), lib.Nn(uint64(st))),
+			Input: map[string]interface{}{"kind": "http-configured", "endpoint": ep, "universe": H.u.name, "chain": k.chain, "roles": rolesOf(H, k.chain),
+				"config": k.cfg, "leaf": d, "opts": o.json(), "shape": k.shape},
+			Impl:   map[string]interface{}{"status": st, "filters_pass": fok, "admissible": ok, "expected_200": want200, "why_not": wwhy},
+			PropOK: propOK, Note: note, Tags: tags,
+		})
+	}
+
 	for _, H := range hs {
 		// IsPrecertificate on every certificate of the universe
-		for i, e := range H.u.ents {
-			got, gotErr := safeIsPrecert(e.Cert)
-			cls := poisonClass(H.u.abs[i])
-			o := "None"
-			if gotErr == "" {
-				o = lib.Some(lib.Bool(got))
-			}
-			propOK := (cls == "critical-null") == (got && gotErr == "") && (cls == "absent") == (!got && gotErr == "") && gotErr != "panic"
-			w.Add(lib.Case{
-				Coq:    fmt.Sprintf("CPrecert %s %s %s", H.u.name, lib.Nat(i), o),
-				Input:  map[string]interface{}{"kind": "precert", "universe": H.u.name, "cert": i, "role": H.u.role[i]},
-				Impl:   map[string]interface{}{"is_precert": got, "error": gotErr, "poison": cls},
-				PropOK: propOK, Note: "is-precertificate: poison=" + cls, Tags: []string{"precert:" + cls},
-			})
+		for i := range H.u.ents {
+			emitPrecert(H, i)
 		}
 		// every honest chain, plain options, both endpoints (root present and absent)
 		for _, leaf := range H.leaves {
@@ -932,6 +1015,40 @@ func main() {
 			emitValidate(line, sub{c, kind}, opts{Roots: []int{0}, Now: tHTTP}, "budget")
 		}
 	}
+	// the configured filters, taken through the configuration (config.go)
+	for _, C := range chs {
+		for _, k := range cfgCases(rc, C, lib.Count(70, 220)) {
+			emitCfg(C, k)
+		}
+	}
+	// the class "poison extension values" (poison.go)
+	for _, P := range phs {
+		for _, k := range P.cases() {
+			switch k.op {
+			case "precert":
+				emitPrecert(P.H, k.sub.chain[0], "poison-values")
+			case "validate":
+				emitValidate(P.H, k.sub, opts{Roots: P.H.trustCf[0], Now: tHTTP}, "poison-values")
+			default:
+				emitHTTP(P.H, k.sub, opts{Roots: P.H.trustCf[0], Now: tHTTP}, k.op == "add-pre-chain")
+			}
+		}
+	}
+	// the class "an entry that is a certificate and something more" (trailing.go)
+	for _, H := range hs {
+		for _, k := range trailingCases(rt, H, lib.Count(1, 2)) {
+			o := opts{Roots: H.trustCf[1], Now: tHTTP}
+			emitValidate(H, k.sub, o, "trailing")
+			emitHTTP(H, k.sub, o, k.pre)
+		}
+	}
+	for _, P := range phs {
+		for _, k := range trailingCases(rt, P.H, 1) {
+			o := opts{Roots: P.H.trustCf[0], Now: tHTTP}
+			emitValidate(P.H, k.sub, o, "trailing")
+			emitHTTP(P.H, k.sub, o, k.pre)
+		}
+	}
 	w.Close()
 	fmt.Printf("c02: wrote %d cases (%d hierarchies, %d instances)\n", w.Len(), len(hs), len(envs))
 }
@@ -940,7 +1057,7 @@ func rolesOf(H *hier, c []int) []string {
 	var out []string
 	for _, i := range c {
 		if i < 0 {
-			out = append(out, "junk")
+			out = append(out, "junk:"+H.junkN[-i-1])
 		} else {
 			out = append(out, H.u.role[i])
 		}
